@@ -76,7 +76,8 @@ def pinned(tier):
 def gen(rng, tier, k):
     cls = rng.choice(["mixed_metronome_measure_lines", "const4_anywhere", "const4_anywhere", "const_other", "single", "snapper_only"])
     if cls == "snapper_only":
-        divs = rng.choice([list(rt.DEFAULT_DIVISIONS), [1, 2, 4, 8, 16], [1, 3, 6, 12], [1, 2, 3, 4, 6, 8, 12, 16, 24, 32, 48], [5, 7], [1]])
+        divs = rng.choice([list(rt.DEFAULT_DIVISIONS), [1, 2, 4, 8, 16], [1, 3, 6, 12], [1, 2, 3, 4, 6, 8, 12, 16, 24, 32, 48], [5, 7], [1],
+                           [16, 12, 8, 4, 3], [96, 1, 48, 2], [12, 16, 4]])  # the order of the divisions carries no meaning
         xs = []
         for _ in range(rng.randint(5, 25)):
             r = rng.random()
@@ -128,7 +129,8 @@ def gen(rng, tier, k):
     if mq and rng.random() < 0.5:
         mq.append(list(rng.choice(mq)))
     return dict(cls=cls, initial=initial, changes=changes, pos_queries=pq, ms_queries=mq,
-                divisions=rng.choice([None, None, [1, 2, 4, 8, 16], [1, 2, 3, 4, 6, 8, 12, 16, 24, 32, 48]]))
+                divisions=rng.choice([None, None, [1, 2, 4, 8, 16], [1, 2, 3, 4, 6, 8, 12, 16, 24, 32, 48], [16, 8, 4, 2, 1], [48, 3, 16]]),
+                rows_seed=rng.randrange(10**6), edit=rng.random() < 0.35)
 
 
 def setup(ctx):
@@ -192,7 +194,10 @@ def run(ctx, case):
     # the same timeline through a tempo list (ms anchored), no truth attached:
     # exercises the passive reconstruction path every other workload relies on
     try:
-        bl = BpmList([Bpm(float(ms), float(c[2]), float(c[3])) for ms, c in zip(truth.ms, truth.ch)])
+        rows_ = [Bpm(float(ms), float(c[2]), float(c[3])) for ms, c in zip(truth.ms, truth.ch)]
+        import random as _r
+        _r.Random(case.get("rows_seed", 0)).shuffle(rows_)  # a tempo list is a set of rows: any order
+        bl = BpmList(rows_)
         tm2 = bl.to_timing_map()
     except Exception:
         tm2 = None
@@ -259,3 +264,23 @@ def run(ctx, case):
                 which.beats(qs, sn)
             except Exception:
                 pass
+    if case.get("edit") and len(changes) > 1:
+        # the same TimingMap object after an edit that keeps the number of changes: every bpm doubled,
+        # change times halved around the initial offset (same positions, new timeline)
+        from reamber.algorithms.timing.utils.BpmChangeOffset import BpmChangeOffset
+
+        t0 = truth.ms[0]
+        truth2 = rt.RefTiming(t0, [(m, b, v * 2, t) for m, b, v, t in changes])
+        try:
+            tm.bpm_changes_offset = [BpmChangeOffset(bpm=float(c[2]), metronome=float(c[3]), offset=float(ms)) for ms, c in zip(truth2.ms, truth2.ch)]
+        except Exception:
+            return
+        tm._rv_truth = truth2
+        ctx.state("c10.edited_map", len(changes))
+        try:
+            if snaps:
+                tm.offsets(snaps)
+            qs2 = [float(t0 + (F(t) - t0) / 2) for t in qs]
+            tm.snaps(qs2, sn)
+        except Exception:
+            pass
